@@ -1269,6 +1269,15 @@ def _op_merge(self, op):
             exp = Coll(ins[0].chromnames, ins[0].lengths, ins[0].bins, pixel_frame(out, dts),
                        ins[0].symmetric, None, ins[0].assembly)
             exp.approx_cols = set().union(*[set(getattr(c, "approx_cols", ())) for c in ins]) & set(columns)
+            if any(getattr(c, "dtype_alternatives", None) for c in ins):
+                # an input whose own dtype is one of several acceptable ones: so is the common type
+                import itertools as _it
+                alts = {}
+                for col in columns:
+                    opts = [sorted(getattr(c, "dtype_alternatives", {}).get(col, set()) | {str(c.pixels[col].dtype)})
+                            for c in ins]
+                    alts[col] = {str(np.result_type(*combo)) for combo in _it.product(*opts)}
+                exp.dtype_alternatives = alts
     uris = [uri_of(i["path"], self.fpath(i["file"])) for i in op["inputs"]]
     uri = uri_of(path, self.fpath(fid), op.get("slash", True))
     kw = dict(mergebuf=op["mergebuf"], mode=mode)
@@ -1799,6 +1808,8 @@ def _op_scool(self, op):
         root = self.fs.files[fid]
         if root.tag == "scool" and not root.dirty and root.coll is None and fault is None:
             cg0 = root.children.get("cells")
+            if cg0 is not None and cg0[0] == "h" and cg0[1].coll is not None:
+                raise Skip("a collection was stored at /cells itself")
             if cg0 is not None and cg0[0] == "h":
                 if not all(l[0] == "h" and isinstance(l[1].coll, Coll) for l in cg0[1].children.values()):
                     raise Skip("the existing single-cell file holds an incomplete cell")
